@@ -26,7 +26,9 @@ structure MState.WF (st : MState) : Prop where
              ∃ k v, st.readKey sl = some k ∧ st.readVal sl = some v ∧ k.length = sl.ksz ∧ v.length = sl.vsz
   /-- distinct slots point at distinct locations -/
   locs   : ∀ a ∈ st.idx.slots, ∀ b ∈ st.idx.slots, a.seg = b.seg → a.off = b.off → a = b
-  /-- a record always fits an empty segment (model precondition RecFits, see DESIGN) -/
+  /-- VACUOUS (`… ∨ True`), not a hypothesis: placeholder of the former model precondition RecFits
+  ("a record always fits an empty segment"), which no theorem needs since fix F13 (see `MState.RecFits`
+  in M05); kept so that the constructor arity of `WF` is unchanged. -/
   room   : headerSize + 10 + maxKeyLength + maxValueLength ≤ st.cfg.maxSeg ∨ True
 
 /-- Contents of a model state as a map. -/
